@@ -9,7 +9,8 @@ GOTAB = c10.GOTAB
 GOFILES = ["all.go"]
 EXTRACT = c10.EXTRACT
 HANDLERS = c10.HANDLERS
-SCHEMES = ["8", "16", "24", "32", "rgba", "nrgba", "cmyk", "gray", "inv"]
+SCHEMES = ["8", "16", "24", "32", "rgba", "nrgba", "cmyk", "gray", "inv", "mix1", "mix2", "mix3", "mix4"]
+MODEL_IS_SPEC = True   # theorems C11_*: the model's accessors are the prescribed kind / bounds / content
 
 RULE = ("model-compared: accessors (kind, dimensionality, bounds, Content, CheckSum) of every encoder family for contents of every symbol "
         "size class; extra phase on the implementation: for every WithColor entry point x 9 colour schemes (Gray, Gray16, RGBA, NRGBA, CMYK "
@@ -35,6 +36,9 @@ def size_jobs(rng, tier):
             L.append("c93 %s %s" % (o, J.hx("".join(rng.choice("ABC123-. $/+%") for _ in range(n)))))
         L.append("c39 1 1 %s" % J.hx(bytes(rng.randrange(128) for _ in range(min(n, 40)))))
         L.append("c93 1 1 %s" % J.hx(bytes(rng.randrange(128) for _ in range(min(n, 40)))))
+    for ch in "/+$%!a\x00\x7f:@[`{":
+        L.append("c39 %d 1 %s" % (rng.randrange(2), J.hx("A" + ch + "B" + ch)))
+        L.append("c93 %d 1 %s" % (rng.randrange(2), J.hx("A" + ch + "B" + ch)))
     for n in [1, 2, 10, 40, 80]:
         L.append("c128 %s" % J.hx("".join(rng.choice("ab12\rñXYZ") for _ in range(n))))
         L.append("c128n %s" % J.hx("".join(rng.choice("ab12\rñXYZ") for _ in range(n))))
@@ -78,6 +82,21 @@ def compare(impl_out, model_out):
     return c10.compare(impl_out, model_out)
 
 
+def oracle_lines(lines, outs):
+    # Content() against the specification's spelling rules (independent of the generated tables)
+    res = []
+    for l, o in zip(lines, outs):
+        if o and o.startswith("OK") and l.split()[1] != "pdf":
+            res.append("contentspec %s %s" % (l[4:], o.split(" ")[4]))
+        else:
+            res.append(None)
+    return res
+
+
+def oracle_verdict(line, out, oracle_out):
+    return None if oracle_out == "OK" else "Content() is not the text that was encoded (EAN: completed number; Code 39/93 full ASCII: standard spelling): " + oracle_out[:100]
+
+
 def nontrivial(line, out):
     return out.startswith("OK")
 
@@ -89,7 +108,7 @@ def extra(rep, impl_exe, model_exe, rng, tier):
             js.append(j[4:])
     lines = []
     for j in js:
-        for s in (SCHEMES if tier == "thorough" else rng.sample(SCHEMES, 4)):
+        for s in (SCHEMES if tier == "thorough" else rng.sample(SCHEMES[:9], 3) + rng.sample(SCHEMES[9:], 2)):
             lines.append("accf %s %s" % (s, j))
     outs = run_lines(impl_exe, lines, shards=NCPU)
     rep.cov["withcolor_calls"] = len(lines)
